@@ -168,6 +168,7 @@ func WorkerMain(e Engine, a *WorkerArgs) int {
 		}
 		seed := RunSeed(a.Seed, a.Property+"/"+a.Sub, i)
 		t := NewTape(seed)
+		cfg.RunIndex = i
 		st.Events = st.Events[:0]
 		st.Dig, st.Uncontrolled = 0, false
 		var prev *digestSnap
